@@ -27,7 +27,8 @@ var c15Schema = SchemaSpec{Name: "db", Tables: []TableSpec{
 	}},
 }}
 
-var c15Names = []string{"rowA", "rowB", "a", "b"} // "a","b" collide with string data
+// "a","b" collide with string data; the last name is as long as a UUID (36 characters) without being one
+var c15Names = []string{"rowA", "rowB", "a", "b", "port_of_vm_0123456789_0123456789_abc"}
 
 func c15ExpandExpected(t TableSpec, col string, v *Value, m map[string]string) *Value {
 	if col == "_uuid" {
